@@ -80,6 +80,20 @@ def m_index_free_format_collision(v):
     return len(set(names)) < len(names)
 
 
+def m_canonicalize_then_layout_inverts_normalisable_role(v):
+    """F22: --canonicalize-roles canonicalises the *input* tree; when a transformation
+    (reification) disturbs the layout, configure may write a normalisable inverted role
+    (AMR :domain-of) into the output, which a second pass canonicalises (to :mod) and,
+    the role now being reifiable, reifies."""
+    if v.get('clause') != 'not-idempotent':
+        return False
+    d = v.get('detail') or {}
+    opts = d.get('options') or []
+    return ('canonicalize_roles' in opts and ('reify_edges' in opts or 'dereify_edges' in opts)
+            and bool(d.get('noncanonical_roles_in_first_output')))
+
+
 MATCHERS = {
+    'canonicalize_then_layout_inverts_normalisable_role': m_canonicalize_then_layout_inverts_normalisable_role,
     'index_free_format_collision': m_index_free_format_collision,
 }
